@@ -205,9 +205,12 @@ class PreemptibleResource(Entity):
 
         # Try preemption
         if preempt:
-            self._try_preempt(amount, priority)
+            freed = self._try_preempt(amount, priority)
             if self._available >= amount:
                 self._grant_immediate(future, amount, priority, on_preempt)
+                if freed:
+                    # An evicted grant may have been larger than needed.
+                    self._wake_waiters()
                 return future
 
         # Must wait
@@ -252,6 +255,11 @@ class PreemptibleResource(Entity):
             [g for g in self._active_grants if not g.released and g.priority > requester_priority],
             key=lambda g: -g.priority,
         )
+
+        # Evicting holders is pointless (and strands the freed capacity) unless
+        # it can actually satisfy the request.
+        if self._available + sum(g.amount for g in candidates) < needed:
+            return 0
 
         freed = 0
         for grant in candidates:
